@@ -311,6 +311,46 @@ pub fn replay(v: &serde_json::Value) -> Vec<Violation> {
     run_case(&c, &mut g).into_iter().map(|(key, what)| Violation { key, what, case: v.clone() }).collect()
 }
 
+
+/// the cases of one workload: the configuration product and the late-add deviations
+fn workload_cases(w: &[Vec<u8>], thorough: bool) -> Vec<Case> {
+    let mut cases: Vec<Case> = Vec::new();
+    let w: Vec<Vec<u8>> = w.to_vec();
+    {
+        let total: usize = w.iter().flatten().map(|s| SIZES[*s as usize].div_ceil(4).max(1)).sum();
+        for multiplex in [0u32, 1, 2, 3] {
+            for interleave in [1u8, 2, 3] {
+                for reverse_add in [false, true] {
+                    if reverse_add && w.len() == 1 {
+                        continue;
+                    }
+                    for scheme_rs in [false, true] {
+                        if scheme_rs && (interleave == 1 || !thorough && multiplex != 2) {
+                            continue;
+                        }
+                        cases.push(Case { queues: w.clone(), multiplex, interleave, reverse_add, scheme_rs, late: None, multiplex_per_queue: None, obt: false, b: 0 });
+                        if !scheme_rs && interleave <= 2 {
+                            cases.push(Case { queues: w.clone(), multiplex, interleave, reverse_add, scheme_rs, late: None, multiplex_per_queue: None, obt: true, b: 0 });
+                        }
+                        // one deviation: add+publish one more object at every packet index, into every queue
+                        if multiplex <= 2 && interleave <= 2 && !scheme_rs {
+                            for i in 0..=(total + 1).min(if thorough { 14 } else { 8 }) {
+                                for q in 0..w.len() {
+                                    cases.push(Case { queues: w.clone(), multiplex, interleave, reverse_add, scheme_rs, late: Some((i, q)), multiplex_per_queue: None, obt: false, b: 0 });
+                                    if w.len() >= 2 && multiplex == 1 && interleave == 1 {
+                                        cases.push(Case { queues: w.clone(), multiplex, interleave, reverse_add, scheme_rs, late: Some((i, q)), multiplex_per_queue: None, obt: true, b: 0 });
+                                    }
+                                }
+                            }
+                        }
+                    }
+                }
+            }
+        }
+    }
+    cases
+}
+
 fn queue_contents(max_objs: usize) -> Vec<Vec<u8>> {
     let mut v: Vec<Vec<u8>> = vec![vec![]];
     let mut cur: Vec<Vec<u8>> = vec![vec![]];
@@ -349,38 +389,6 @@ pub fn run(thorough: bool) -> i32 {
         }
     }
     let mut cases: Vec<Case> = Vec::new();
-    for w in &workloads {
-        let total: usize = w.iter().flatten().map(|s| SIZES[*s as usize].div_ceil(4).max(1)).sum();
-        for multiplex in [0u32, 1, 2, 3] {
-            for interleave in [1u8, 2, 3] {
-                for reverse_add in [false, true] {
-                    if reverse_add && w.len() == 1 {
-                        continue;
-                    }
-                    for scheme_rs in [false, true] {
-                        if scheme_rs && (interleave == 1 || !thorough && multiplex != 2) {
-                            continue;
-                        }
-                        cases.push(Case { queues: w.clone(), multiplex, interleave, reverse_add, scheme_rs, late: None, multiplex_per_queue: None, obt: false, b: 0 });
-                        if !scheme_rs && interleave <= 2 {
-                            cases.push(Case { queues: w.clone(), multiplex, interleave, reverse_add, scheme_rs, late: None, multiplex_per_queue: None, obt: true, b: 0 });
-                        }
-                        // one deviation: add+publish one more object at every packet index, into every queue
-                        if multiplex <= 2 && interleave <= 2 && !scheme_rs {
-                            for i in 0..=(total + 1).min(if thorough { 14 } else { 8 }) {
-                                for q in 0..w.len() {
-                                    cases.push(Case { queues: w.clone(), multiplex, interleave, reverse_add, scheme_rs, late: Some((i, q)), multiplex_per_queue: None, obt: false, b: 0 });
-                                    if w.len() >= 2 && multiplex == 1 && interleave == 1 {
-                                        cases.push(Case { queues: w.clone(), multiplex, interleave, reverse_add, scheme_rs, late: Some((i, q)), multiplex_per_queue: None, obt: true, b: 0 });
-                                    }
-                                }
-                            }
-                        }
-                    }
-                }
-            }
-        }
-    }
     // block interleaving on its own: one object (and two multiplexed ones) of 1..14 symbols cut into blocks of
     // at most 1..4 symbols, window 1..4 (5 thorough): more blocks than the window, equal and unequal blocks
     for bsz in 1..=4u16 {
@@ -398,8 +406,8 @@ pub fn run(thorough: bool) -> i32 {
     // queues with different multiplex_files values (every assignment of {0,1,2,3} that is not uniform)
     for w in &workloads {
         let nq = w.len();
-        if nq < 2 || w.iter().all(|q| q.len() < 2) {
-            continue;
+        if nq < 2 || w.iter().all(|q| q.len() < 2) || w.iter().map(|q| q.len()).sum::<usize>() > 4 {
+            continue; // (the 3-queue workloads of 5-6 objects x 60 assignments would not fit in memory)
         }
         for code in 0..4u32.pow(nq as u32) {
             let v: Vec<u32> = (0..nq).map(|q| (code / 4u32.pow(q as u32)) % 4).collect();
@@ -414,7 +422,45 @@ pub fn run(thorough: bool) -> i32 {
             }
         }
     }
-    let ncases = cases.len();
+    // the big product is generated and run per workload inside the workers (it does not fit a single Vec)
+    let wl = Arc::new(workloads.clone());
+    let wres = par_map_wd(
+        wl.clone(),
+        Duration::from_secs(600),
+        move |_, w| {
+            let mut g = G::default();
+            let mut found: Vec<(String, String, Case)> = Vec::new();
+            let cs = workload_cases(w, thorough);
+            let n = cs.len();
+            for c in cs {
+                if let Some((k, wh)) = run_case(&c, &mut g) {
+                    if !found.iter().any(|f| f.0 == k) {
+                        found.push((k, wh, c));
+                    }
+                }
+            }
+            (found, g, n)
+        },
+        |_, w| (vec![("C13/hang".into(), "workload did not finish in 600 s".into(), Case { queues: w.clone(), multiplex: 0, interleave: 1, reverse_add: false, scheme_rs: false, late: None, multiplex_per_queue: None, obt: false, b: 0 })], G::default(), 0),
+    );
+    let mut g = G::default();
+    let mut nw_cases = 0usize;
+    let mut last_case: Option<Case> = None;
+    for (found, gg, n) in wres {
+        g.sessions += gg.sessions;
+        g.packets += gg.packets;
+        g.lower_prio_packets += gg.lower_prio_packets;
+        g.multiplexed += gg.multiplexed;
+        g.interleaved += gg.interleaved;
+        g.late_preempts += gg.late_preempts;
+        nw_cases += n;
+        for (key, what, c) in found {
+            last_case = Some(c.clone());
+            rep.add(Violation { key, what, case: json!({"check": "workload", "case": serde_json::to_value(&c).unwrap()}) });
+        }
+    }
+    let _ = last_case;
+    let ncases = cases.len() + nw_cases;
     let cases = Arc::new(cases);
     let res = par_map_wd(
         cases.clone(),
@@ -426,7 +472,6 @@ pub fn run(thorough: bool) -> i32 {
         },
         |_, _| (Some(("C13/hang".into(), "session did not finish in 30 s".into())), G::default()),
     );
-    let mut g = G::default();
     for (c, (v, gg)) in cases.iter().zip(res) {
         g.sessions += gg.sessions;
         g.packets += gg.packets;
